@@ -722,7 +722,12 @@ def runCall (fl : Flags) (b : Block) (conv : Bool := false) : Res :=
     if fam = "redefcall" then
       (match runs.find? (fun r => let c := outcomeClass (resOf r); c == "unsat" || c == "missingarg") with
        | some r => s!"FAIL:redefined_function_failed_for_lack_of_an_argument_{noSpace (showImplRes (resOf r))}"
-       | none => "ok")
+       | none =>
+         -- "yields the original function's own results for the original arguments plus those values": the inner
+         -- call is replayed as an ordinary call with the extra values; any difference is reported here
+         match conform with
+         | some m => s!"FAIL:redefined_function_differs_from_the_original_called_with_the_extra_values:{noSpace m}"
+         | none => "ok")
     else "na"
   { conform := conform, propNA := true, props := agg ++ [("C05", c05), ("C07", c07), ("C08", c08), ("C10", c10)],
     stats := [s!"outcome={firstOutcome}", s!"execs={nexec}", s!"convs={fx.convs.length}", s!"depth={depth}",
